@@ -244,12 +244,27 @@ func c13(r *rand.Rand, tier string, tr *trace.Buf, extra map[string]interface{})
 	if tier == "thorough" {
 		nsig = 30
 	}
-	for q := 0; q < nsig*3; q++ {
+	for q := 0; q < nsig*3+8; q++ {
 		msg := make([]byte, r.Intn(64))
 		r.Read(msg)
 		sig, _ := d.Sign(msg)
 		class := "genuine"
-		switch q % 3 {
+		if q >= nsig*3 { // one padding byte non-zero: every padding position class, including the last one (74)
+			class = "padding-nonzero"
+			h := sig[hintOff:]
+			last := int(h[75+7])
+			if last < 75 {
+				p := []int{last, 74, (last + 74) / 2, 73, last + 1, 74, 74, last}[q-nsig*3]
+				if p < last {
+					p = last
+				}
+				if p > 74 {
+					p = 74
+				}
+				h[p] = byte(1 + r.Intn(255))
+			}
+		}
+		switch q%3 + 3*boolInt(q >= nsig*3) {
 		case 1:
 			class = "random-z"
 			r.Read(sig[32:hintOff])
@@ -292,6 +307,13 @@ func c13(r *rand.Rand, tier string, tr *trace.Buf, extra map[string]interface{})
 		tr.Emit(pEvent{Ev: "keys", Pk: ints(pk[:]), Sk: ints(sk[:]), PkRho: ints(rho[:]), SkParts: [][]int{ints(rho2[:]), ints(key[:]), ints(trr[:])},
 			T1: polys(t1[:]), T0: polys(t0[:]), S1: polys(s1[:]), S2: polys(s2[:])})
 	}
+}
+
+func boolInt(b bool) int {
+	if b {
+		return 1
+	}
+	return 0
 }
 
 func max(a, b int) int {
